@@ -412,3 +412,15 @@ PROPS["C18"] = conn_prop(
     ["H2V.Props.CompBase"] + (["H2V.Props.C18"] if _load_theorems("C18") else []),
     _cb(["C18.reset_quota", "C18.local_error_reset_quota", "C18.tiny_data_costs"]) + _load_theorems("C18"),
     CONN_PROFILES, assumptions=CONN_ASSUMPTIONS)
+
+
+def _conn_claim(pid, base_thms=()):
+    """a connection-level property: agent-proved theorems (H2V/Props/<pid>.lean) + shared component theorems"""
+    ths = _load_theorems(pid)
+    targets = (["H2V.Props.CompBase"] if base_thms else []) + (["H2V.Props." + pid] if ths else [])
+    return conn_prop(targets, _cb(list(base_thms)) + ths, CONN_PROFILES, assumptions=CONN_ASSUMPTIONS)
+
+
+for _pid in ("C14",):
+    if _load_theorems(_pid):
+        PROPS[_pid] = _conn_claim(_pid)
